@@ -239,6 +239,9 @@ class World:
         try:
             self.hass = loop.run_coro(self._setup(started))
             loop.settle()
+            # everything allocated so far is long-lived for this world: exempt it from collections so that
+            # gc.collect() between operations only looks at what the operations themselves created
+            gc.freeze()
         except BaseException:
             self.close()
             raise
@@ -409,6 +412,7 @@ class World:
         if self.closed:
             return
         self.closed = True
+        gc.unfreeze()
         try:
             if self.hass is not None:
                 try:
